@@ -78,3 +78,24 @@ contract(f"{G}::PrimaiteGame.update_agents", props=["C10", "C01"],
                             ("rest_untouched", "forall(k, _i, len(self._reward_calculation_order),"
                                                " agent_at(self, k).reward_function.total_reward == old(agent_at(self, k).reward_function.total_reward))"),
                             ("structure", "self.step_counter == old(self.step_counter)")]}})
+
+# ---- reward sharing set-up: every shared-reward dependency is recorded, cyclic sharing is rejected -----------------------------
+SCI = "src/primaite/game/science.py"
+from pyvc.contracts import ufun  # noqa: E402
+ufun("cyclic", 1, "bool")       # cyclic(seq(graph)): the dependency graph has a cycle (decided by graph_has_cycle, bounded stand-in above)
+contract(f"{SCI}::graph_has_cycle", verify=False, note="recursive closure over sets: outside the subset; checked by the bounded stand-in",
+         ensures=["result == cyclic(seq(graph))"], modifies=[], emits=[("cycle_check", ["graph"])], exact_events=True, allocates=True)
+contract(f"{SCI}::topological_sort", verify=False, note="recursive closure over sets: outside the subset; checked by the bounded stand-in",
+         ensures=[], modifies=[], emits=[("topo_sort", ["graph"])], exact_events=True, allocates=True)
+spec("the_graph()", "cast(event_arg(n_events() - 1, 0), 'Dict[str, Set[str]]')")
+contract(f"{G}::PrimaiteGame.setup_reward_sharing", props=["C10"], bounded=2,
+         ensures=[("sorted_graph_is_checked_graph", "n_events() == old(n_events()) + 2 and event_kind(n_events() - 2) == ev('cycle_check')"
+                                                    " and event_kind(n_events() - 1) == ev('topo_sort') and event_arg(n_events() - 2, 0) is the_graph()"),
+                  # every agent has an entry, and EVERY shared-reward component of an agent is recorded as a dependency
+                  ("all_dependencies_recorded", "forall(j, 0, len(self.agents), dict_key(self.agents, j) in the_graph()"
+                                                " and forall(k, 0, len(dict_val(self.agents, j).reward_function.reward_components),"
+                                                " implies(isinstance(dict_val(self.agents, j).reward_function.reward_components[k][0], SharedReward),"
+                                                " dict_val(self.agents, j).reward_function.reward_components[k][0].config.agent_name in the_graph()[dict_key(self.agents, j)])))"),
+                  ("cyclic_rejected", "not cyclic(seq(the_graph()))")],
+         raises={"RuntimeError": "True"},
+         modifies=["heap"], allocates=True)
